@@ -5,6 +5,8 @@
 #include "colvars_memstream.h"
 #include <memory>
 #include <sstream>
+#include <fstream>
+#include <cstdlib>
 
 struct Dim { double lower, width; int n; bool periodic; };
 
@@ -84,6 +86,31 @@ int main(int argc, char **argv)
       colvar_grid_scalar g(cvs), r1(cvs), r2(cvs), r3(cvs), r4(cvs);
       std::vector<double> v = fill(g.raw_data_num(), false);
       for (size_t i = 0; i < v.size(); i++) g.set_value(i, v[i]);
+      {
+        // a grid with a custom extent on a periodic variable is not periodic: the file must carry the grid's own flag;
+        // read back through the file constructor (no variables attached), which takes everything from the header
+        colvar_grid_scalar &gc = g;
+        std::vector<bool> const saved_periodic = g.periodic;
+        bool flipped = false;
+        for (int i = 0; i < nd; i++) {
+          if (dims[i].periodic && (*genInt(0, 1) == 0)) { gc.periodic[i] = false; flipped = true; }
+        }
+        static std::string tmpdir;
+        if (tmpdir.empty()) {
+          char tmpl[] = "/tmp/vf_rc15_XXXXXX";
+          tmpdir = mkdtemp(tmpl);
+          atexit([]() { std::string c = "rm -rf " + tmpdir; if (system(c.c_str())) {} });
+        }
+        std::string const path = tmpdir + "/g.dat";
+        { std::ofstream os(path.c_str()); gc.write_multicol(os); }
+        colvar_grid_scalar gf(path);
+        RC_LOG() << " multicol file -> file constructor:";
+        RC_ASSERT(gf.sizes() == gc.sizes());
+        RC_ASSERT(gf.periodic == gc.periodic);
+        bool d = same_data(gc, gf, 1e-13, why); RC_LOG() << why; RC_ASSERT(d);
+        if (flipped) CNT.hit("files.custom_periodicity");
+        g.periodic = saved_periodic;
+      }
       { std::ostringstream os; g.write_multicol(os); std::istringstream is(os.str()); r1.read_multicol(is); RC_ASSERT(bool(is) || is.eof());
         RC_LOG() << " multicol:"; RC_ASSERT(same_shape(g, r1, why)); bool d = same_data(g, r1, 1e-13, why); RC_LOG() << why; RC_ASSERT(d); }
       { std::ostringstream os; os.setf(std::ios::scientific, std::ios::floatfield); os.precision(cvm::cv_prec); g.write_restart(os); std::istringstream is(os.str()); r2.read_restart(is);
